@@ -4,6 +4,6 @@ CONSTANTS
   MaxLen = 6
   Thresholds = {0, 1, 2, 3}
   AnswerDelays = {0}
-INVARIANTS TypeOK InvAccuracy InvTiming InvSilentStop InvCounter InvCompleteness InvFinal
+INVARIANTS TypeOK InvAccuracy InvTiming InvSilentStop InvCounter InvCompleteness InvFinal InvGoneAtClose InvNoTickAfterUser
 PROPERTIES NoPingAfterStop Terminates
 CHECK_DEADLOCK FALSE
